@@ -290,4 +290,12 @@ def ru_names_bound(ctx: Ctx) -> None:
     names_rule(ctx)
 
 
-RULES = [r1_longest_match, r2_scoping, r3_line_grammar, r4_string_operand, r5_enclosing_table_stays_reachable, r6_text_layout, rb_binding_agreement, rm_no_process_lifetime_results, ru_names_bound]
+
+def r7_scopes_are_left_again(ctx: Ctx) -> None:
+    """the table in effect is the current scope's: every generator that enters a scope leaves it again (C08.R1)"""
+    from .c08 import r1_generator_pairing
+
+    r1_generator_pairing(ctx)
+
+
+RULES = [r1_longest_match, r2_scoping, r3_line_grammar, r4_string_operand, r5_enclosing_table_stays_reachable, r6_text_layout, r7_scopes_are_left_again, rb_binding_agreement, rm_no_process_lifetime_results, ru_names_bound]
